@@ -71,6 +71,14 @@ Publish(b) ==
                            ELSE hist[x]]
        ELSE UNCHANGED dvars
 
+(* A publish that only concerns labels OUTSIDE the modelled set (other users of the directory): a new *)
+(* epoch and a new root hash, nothing changes for the modelled labels.  It is what makes the epoch    *)
+(* run ahead of the versions, which the marker arithmetic of the proofs depends on.                   *)
+PublishOther ==
+  /\ epoch' = epoch + 1
+  /\ effective' = effective + 1
+  /\ UNCHANGED hist
+
 ---------------------------------------------------------------------------
 (* StorageManager::tombstone_value_states(label, cut): manager/mod.rs:421.  *)
 (* The property (C20) is about cut-offs before the label's latest update.  *)
@@ -153,10 +161,12 @@ LeafShape ==
   /\ \A x \in Labels : \A i \in 1..(Len(hist[x]) - 1) :
         /\ hist[x][i].ep < hist[x][i+1].ep                 \* one version per epoch at most
         /\ Stored(hist[x][i]) # hist[x][i+1].val \/ hist[x][i].tomb  \* successive values differ
-  /\ \A t \in 1..epoch : \E lf \in Leaves : lf[2] = "F" /\ lf[5] = t   \* every epoch inserted something
   /\ \A lf \in Leaves : lf[2] = "S" =>
         \E g \in Leaves : g[1] = lf[1] /\ g[2] = "F" /\ g[3] = lf[3] + 1 /\ g[5] = lf[5]
   /\ Cardinality(FreshLeaves(hist)) + Cardinality(StaleLeaves(hist)) = Cardinality(Leaves)
+
+(* when all publishes concern modelled labels (no PublishOther): every epoch inserted something *)
+EveryEpochInserts == \A t \in 1..epoch : \E lf \in Leaves : lf[2] = "F" /\ lf[5] = t
 
 (* C02/C06: on an honest tree exactly one version of a label looks "latest" to the   *)
 (* lookup verifier: fresh(v) present, its marker present, stale(v) absent, v <= epoch *)
